@@ -78,7 +78,7 @@ fn check_file(a: usize, content: &[u8], failed: bool, got: Result<String, Digest
                 sym::check("C13/file-digest", spec::bytes_eq(h.as_bytes(), want.as_bytes()));
                 let mut lower_hex = true;
                 for c in h.as_bytes() {
-                    lower_hex = lower_hex & ((*c >= b'0' && *c <= b'9') | (*c >= b'a' && *c <= b'f'));
+                    lower_hex = lower_hex & (((*c >= b'0') & (*c <= b'9')) | ((*c >= b'a') & (*c <= b'f')));
                 }
                 sym::check("C13/lower-case-hex", lower_hex);
                 let full = [64usize, 32, 40, 40, 64, 128][a];
